@@ -15,8 +15,8 @@ from .wrapcheck import run_cases
 NAMES = [["user", "id"], ["http", "port"], ["peer", "ids"], ["json", "file"], ["max", "size"], ["api", "url"], ["timeout"], ["level"], ["mode"], ["tags"]]
 TAGW = [["uid"], ["listen", "port"], ["file", "path"], ["nick"], ["limit"], ["endpoint"], ["wait"], ["lvl"], ["mod"], ["labels"]]
 ALIASW = [["old", "id"], ["old", "port"], ["old", "file"], ["old", "name"], ["old", "size"], ["old", "url"], ["old", "wait"], ["old", "lvl"], ["old", "mode"], ["old", "tags"]]
-ALL_KINDS = ["int", "int8", "uint16", "str", "bool", "f64", "dur", "strs", "ints", "smap", "set", "time", "named", "durs", "structs"]
-NARROW = ["int8", "uint16", "named"]
+ALL_KINDS = ["int", "int8", "uint16", "str", "bool", "f64", "dur", "strs", "ints", "smap", "set", "time", "named", "durs", "structs", "f32", "c64"]
+NARROW = ["int8", "uint16", "named", "f32", "c64"]
 GARBAGE = ["", " ", ",", ":", "\"", "\"unterminated", "`", "a,b:c", "{", "}", "[", "{\"a\":", "-", "--", "0x", "1e999", "99999999999999999999",
            "\x00", "\\", "a\nb", "é→", "k:v,k:w", "'", "=", "a=b", "true,false", "1,2,x"]
 
@@ -58,7 +58,7 @@ def cases_of(out):
 
 def known_match(known, pid, mis, case):
     for k in known:
-        if k["property"] == pid and re.search(k["match"], mis["detail"]) and (not k.get("kind") or any(l["kind"] == k["kind"] for l in case["expect"]["leaves"])):
+        if k["property"] == pid and re.search(k["match"], mis["detail"]) and (not k.get("src") or k["src"] == mis.get("src")) and (not k.get("kind") or any(l["kind"] == k["kind"] for l in case["expect"]["leaves"])):
             return k
     return None
 
